@@ -176,7 +176,7 @@ impl Callback for UnspentCsvDump {
                 old(self).tx_count + block.tx_count.value <= u64::MAX,
                 forall|k: int| 0 <= k <= block.txs@.len() ==> #[trigger] sum_in(block.txs@, k) <= sum_in(block.txs@, block.txs@.len() as int),
                 forall|k: int| 0 <= k <= block.txs@.len() ==> #[trigger] sum_out(block.txs@, k) <= sum_out(block.txs@, block.txs@.len() as int),
-//@before `self.in_count += common::remove_unspents(tx, &mut self.unspents);`
+//@before `self.in_count`
             assert(*tx == block.txs@[it.index@ as int]);
             assert(sum_in(block.txs@, it.index@ + 1) <= sum_in(block.txs@, block.txs@.len() as int));
             assert(sum_out(block.txs@, it.index@ + 1) <= sum_out(block.txs@, block.txs@.len() as int));
@@ -201,7 +201,7 @@ impl Callback for Balances {
                 forall|i: int| 0 <= i < block.txs@.len() ==> it.seq()[i] == &block.txs@[i],
                 block_wf(*block),
                 self.unspents.view() =~= apply_txs(old(self).unspents.view(), block.txs@, block_height, it.index@ as int),
-//@before `common::remove_unspents(tx, &mut self.unspents);`
+//@before `common::remove_unspents`
             assert(*tx == block.txs@[it.index@ as int]);
 //@end
 }
